@@ -86,6 +86,24 @@ class Run:
             d = facts.extract(cfg)
             recs = facts.load_dir(d)
             inlined = []
+            ki = os.path.join(VERIF, "rules", "known_items.json")
+            if os.path.exists(ki) and not os.environ.get("AGL_NO_RENAME"):
+                from . import rename
+                with open(ki) as fh:
+                    items = json.load(fh)
+                recs, renamed = rename.apply(recs, items)
+                if renamed:
+                    self.notes.append("cfg %s: renamed items analysed under their reviewed names: %s" % (cfg, "; ".join(x.replace("alpenglow::", "") for x in renamed)))
+                from . import deadnew
+
+                def _others(cur=cfg):
+                    for oc in ("lib", "bins"):
+                        if oc != cur:
+                            yield facts.load_dir(facts.extract(oc))
+                recs, dropped = deadnew.prune(recs, items, _others)
+                if dropped:
+                    self.notes.append("cfg %s: new type(s) that no code outside their own impls mentions (library and binaries): not part of the running system, left out of the analysis: %s" % (
+                        cfg, ", ".join(x.replace("alpenglow::", "") for x in dropped)))
             kf = os.path.join(VERIF, "rules", "known_fns.json")
             if os.path.exists(kf) and not os.environ.get("AGL_NO_INLINE"):
                 from . import inline
